@@ -30,7 +30,7 @@ RULE = ('tables from tables.rand_spec (1..4 x 1..5, mostly non-square, asymmetri
         'zeros / reversed indices in CSR or CSC; hand-made 0 x n and n x 0 tables) x one call of '
         '{sum, min, max, nonzero, nonzero_counts, reduce(+,-,max), get_table_density, nnz, compute_counts_per_sample_stats, '
         '_summarize_table in its 4 modes, table-ids, head, to_dataframe dense/sparse, metadata_to_dataframe, _export_metadata} '
-        'x every axis / flag; plus, in both tiers, the four commands through the real click group in process (every forwarded option varied); '
+        'x every axis / flag, shapes and number kinds of returned arrays compared as well (18 % of the tables 1 x n / n x 1 / 1 x 1); generators (nonzero, iter, iter_data, iter_pairwise) consumed with a layout-flipping read between successive items; plus, in both tiers, the four commands through the real click group in process (every forwarded option varied); '
         'non-trivial = at least 2x2, non-square or asymmetric matrix with zero and non-zero cells; distinct by case hash')
 TRUSTED = ['hand-written model coq/Model/Summary.v tied to biom/table.py, biom/util.py and biom/cli/*.py by this correspondence run',
            'scipy conversions as Sparse.swap_segs (segment view); Table.filter inside head is property C08',
@@ -45,7 +45,7 @@ ASSUMPTIONS = ['matrix values are multiples of 1/64 with sums below 2^53 (sums e
 AX3 = {'observation': 0, 'sample': 1, 'whole': 2}
 AX = {'observation': 0, 'sample': 1}
 FUNCS = {'add': (0, lambda x, y: x + y), 'sub': (1, lambda x, y: x - y), 'max': (2, lambda x, y: max(x, y))}
-OPS = {'sum': 0, 'min': 1, 'max': 2, 'nonzero': 3, 'nzcounts': 4, 'reduce': 5, 'density': 6, 'stats': 7, 'report': 8,
+OPS = {'gen': 15, 'sum': 0, 'min': 1, 'max': 2, 'nonzero': 3, 'nzcounts': 4, 'reduce': 5, 'density': 6, 'stats': 7, 'report': 8,
        'ids': 9, 'head': 10, 'df': 11, 'sdf': 12, 'mddf': 13, 'nnz': 14, 'export': 13,
        'cli_report': 8, 'cli_ids': 9, 'cli_head': 10, 'cli_export': 13}
 LABELS = [('Num samples: ', 1), ('Num observations: ', 2), ('Total count: ', 3),
@@ -280,28 +280,105 @@ def _invoke(args):
     return _Res(buf.getvalue(), err)
 
 
+def _shaped(x, v):
+    """value observable + the SHAPE and dtype kind of what the method returned (a 0-d array is not a 1-element vector)"""
+    if x is None:
+        return {'v': v, 'shape': None, 'kind': None}
+    a = np.asarray(x)
+    return {'v': v, 'shape': [int(n) for n in a.shape], 'kind': 'i' if a.dtype.kind in 'iu' else a.dtype.kind}
+
+
+FLIPS = {
+    'col': lambda t: t.data(t.ids()[0], axis='sample'),
+    'row': lambda t: t.data(t.ids(axis='observation')[-1], axis='observation'),
+    'minS': lambda t: t.min('sample'),
+    'maxO': lambda t: t.max('observation'),
+    'stats': lambda t: compute_counts_per_sample_stats(t),
+    'iterS': lambda t: [v.sum() for v in t.iter_data(axis='sample')],
+    'iterO': lambda t: [v.sum() for v in t.iter_data(axis='observation', dense=False)],
+    'nzS': lambda t: t.nonzero_counts('sample'),
+    'nzO': lambda t: t.nonzero_counts('observation'),
+    'nnz': lambda t: t.nnz,
+    'nonzero': lambda t: list(t.nonzero()),
+}
+
+
+def _gen_of(c, t):
+    w = c['which']
+    if w == 'nonzero':
+        return t.nonzero(), lambda x: [str(x[0]), str(x[1])]
+    if w == 'iter':
+        return t.iter(axis=c['axis'], dense=c['dense']), lambda x: [_vec(x[0]), str(x[1])]
+    if w == 'iter_data':
+        return t.iter_data(axis=c['axis'], dense=c['dense']), lambda x: [_vec(x)]
+    if w == 'pairwise':
+        return (t.iter_pairwise(axis=c['axis'], dense=c['dense'], tri=c['tri'], diag=c['diag']),
+                lambda x: [str(x[0][1]), str(x[1][1]), _vec(x[0][0]), _vec(x[1][0])])
+    raise ValueError(w)
+
+
+def _vec(v):
+    if hasattr(v, 'toarray'):
+        v = v.toarray()
+    return np.asarray(v, dtype=float).ravel().tolist()
+
+
+def _consume(c, t, flips):
+    g, conv = _gen_of(c, t)
+    out = []
+    n = 0
+    for item in g:
+        out.append(conv(item))          # converted at once: the item must not depend on what happens next
+        if flips:
+            try:
+                FLIPS[flips[n % len(flips)]](t)     # a read-only query that leaves the matrix in another layout
+            except (ValueError, IndexError):        # min/max of an all-zero vector, data() on an empty table
+                pass
+            n += 1
+    return out
+
+
+def _run_gen(c, t):
+    """a generator-returning accessor consumed with a layout-flipping read between successive items; what comes out
+    must be what the same generator gives when taken as a list up front"""
+    try:
+        inter = _consume(c, t, c['flips'])
+    except Exception as e:
+        return {'items': _err(e), 'same_as_upfront': None}
+    try:
+        up = _consume(c, make(c), [])
+    except Exception as e:
+        up = _err(e)
+    return {'items': ['ok', inter], 'same_as_upfront': canon(up) == canon(inter)}
+
+
 def _run_impl(c):
     t = make(c)
     k = c['kind']
     if k == 'sum':
-        return np.atleast_1d(t.sum(c['axis'])).astype(float).tolist()
+        v = t.sum(c['axis'])
+        return _shaped(v, np.asarray(v, dtype=float).ravel().tolist())
     if k in ('min', 'max'):
         try:
             v = getattr(t, k)(c['axis'])
         except Exception as e:
-            return _err(e)
+            return _shaped(None, _err(e))
         if c['axis'] == 'whole':
-            return ['ok', None if np.isinf(v) else float(v)]
-        return ['ok', np.asarray(v, dtype=float).tolist()]
+            return _shaped(v, ['ok', None if np.isinf(v) else float(v)])
+        return _shaped(v, ['ok', np.asarray(v, dtype=float).ravel().tolist()])
     if k == 'nonzero':
         return [[str(o), str(s)] for o, s in t.nonzero()]
+    if k == 'gen':
+        return _run_gen(c, t)
     if k == 'nzcounts':
-        return np.asarray(t.nonzero_counts(c['axis'], binary=c['binary']), dtype=float).tolist()
+        v = t.nonzero_counts(c['axis'], binary=c['binary'])
+        return _shaped(v, np.asarray(v, dtype=float).ravel().tolist())
     if k == 'reduce':
         try:
-            return ['ok', np.asarray(t.reduce(FUNCS[c['f']][1], c['axis']), dtype=float).tolist()]
+            v = t.reduce(FUNCS[c['f']][1], c['axis'])
         except Exception as e:
-            return _err(e)
+            return _shaped(None, _err(e))
+        return _shaped(v, ['ok', np.asarray(v, dtype=float).ravel().tolist()])
     if k == 'density':
         return float(t.get_table_density())
     if k == 'nnz':
@@ -436,6 +513,8 @@ def encode(c):
     op = OPS[k]
     if k in ('sum', 'min', 'max'):
         return [op, rt, AX3[c['axis']]]
+    if k == 'gen':
+        return [3, rt] if c['which'] == 'nonzero' else [15, rt, AX[c['axis']]]
     if k == 'nzcounts':
         return [op, rt, AX3[c['axis']], int(c['binary'])]
     if k == 'reduce':
@@ -465,26 +544,49 @@ def _label(tr):
     return key if len(tr) == 1 else '%s_%d' % (key, tr[1])
 
 
+def _shaped_m(shape, kind, v):
+    return {'v': v, 'shape': shape, 'kind': kind}
+
+
 def decode(tree, c):
     cd = _coder(c)
     k = c['kind']
     S = T.SCALE
     if k == 'sum':
-        return [cd.unval(v) for v in tree]
+        return _shaped_m([] if c['axis'] == 'whole' else [len(tree)], 'f', [cd.unval(v) for v in tree])
     if k in ('min', 'max'):
         if tree[0] == -1:
-            return ['err', tree[1]]
+            return _shaped_m(None, None, ['err', tree[1]])
         if c['axis'] == 'whole':
-            return ['ok', None if not tree[1] else cd.unval(tree[1][0])]
-        return ['ok', [cd.unval(v) for v in tree[1]]]
+            return _shaped_m([], 'f', ['ok', None if not tree[1] else cd.unval(tree[1][0])])
+        return _shaped_m([len(tree[1])], 'f', ['ok', [cd.unval(v) for v in tree[1]]])
+    if k == 'gen':
+        if c['which'] == 'nonzero':
+            items = [[cd.unid(o), cd.unid(s)] for o, s in tree]
+        else:
+            t = make(c)
+            ids = [str(i) for i in t.ids(axis=c['axis'])]
+            n = len(t.ids(axis='observation' if c['axis'] == 'sample' else 'sample'))
+            vecs = [[cd.unval(v) for v in row] for row in tree] if n else [[] for _ in ids]
+            if c['which'] == 'iter':
+                items = [[v, i] for v, i in zip(vecs, ids)]
+            elif c['which'] == 'iter_data':
+                items = [[v] for v in vecs]
+            else:
+                d = 0 if c['diag'] else 1
+                items = []
+                for i in range(len(ids)):
+                    js = list(range(i + d, len(ids))) if c['tri'] else list(range(i)) + list(range(i + d, len(ids)))
+                    items += [[ids[i], ids[j], vecs[i], vecs[j]] for j in js]
+        return {'items': ['ok', items], 'same_as_upfront': True}
     if k == 'nonzero':
         return [[cd.unid(o), cd.unid(s)] for o, s in tree]
     if k == 'nzcounts':
-        return [float(v) if c['binary'] else cd.unval(v) for v in tree]
+        return _shaped_m([len(tree)], 'i' if c['binary'] else 'f', [float(v) if c['binary'] else cd.unval(v) for v in tree])
     if k == 'reduce':
         if tree[0] == -1:
-            return ['err', tree[1]]
-        return ['ok', [cd.unval(v) for v in tree[1]]]
+            return _shaped_m(None, None, ['err', tree[1]])
+        return _shaped_m([len(tree[1])], 'f', ['ok', [cd.unval(v) for v in tree[1]]])
     if k == 'density':
         return _q(tree[0], tree[1])
     if k == 'nnz':
@@ -593,6 +695,17 @@ def oracle(c, obs):
     M, oids, sids = R['M'], R['oids'], R['sids']
     nr, nc = M.shape
     fails = []
+    if isinstance(obs, dict) and 'shape' in obs and 'v' in obs:
+        # array-valued summaries: the shape and number kind of what was returned, then the values
+        ok = not (isinstance(obs['v'], list) and obs['v'] and obs['v'][0] == 'err')
+        if ok:
+            ax = c['axis']
+            want_shape = ([1] if k == 'nzcounts' else []) if ax == 'whole' else [nr if ax == 'observation' else nc]
+            want_kind = 'i' if (k == 'nzcounts' and c['binary']) else 'f'
+            if obs['shape'] != want_shape or obs['kind'] != want_kind:
+                fails.append('%s(%s) returned an array of shape %s kind %s, one figure per id is shape %s kind %s'
+                             % (k, ax, obs['shape'], obs['kind'], want_shape, want_kind))
+        obs = obs['v']
     if k == 'sum':
         want = {'whole': [M.sum()], 'sample': M.sum(axis=0).tolist(), 'observation': M.sum(axis=1).tolist()}[c['axis']]
         if canon(obs) != canon([float(x) for x in want]):
@@ -616,6 +729,30 @@ def oracle(c, obs):
         want = sorted([oids[i], sids[j]] for i in range(nr) for j in range(nc) if M[i, j] != 0)
         if sorted(obs) != want:
             fails.append('nonzero() lists %s, the non-zero cells are %s' % (obs, want))
+    elif k == 'gen':
+        if obs['items'][0] != 'ok':
+            return ['%s consumed between reads failed: %s' % (c['which'], obs['items'])]
+        items = obs['items'][1]
+        if obs['same_as_upfront'] is not True:
+            fails.append('%s consumed with reads %s between the items differs from the list taken up front' % (c['which'], c['flips']))
+        if c['which'] == 'nonzero':
+            if not _stored_zeros(c):
+                want = sorted([oids[i], sids[j]] for i in range(nr) for j in range(nc) if M[i, j] != 0)
+                if sorted(items) != want:
+                    fails.append('nonzero() consumed between reads lists %s, the non-zero cells are %s' % (items, want))
+        else:
+            ids = oids if c['axis'] == 'observation' else sids
+            vecs = [M[i, :].tolist() for i in range(nr)] if c['axis'] == 'observation' else [M[:, j].tolist() for j in range(nc)]
+            if c['which'] == 'iter':
+                want = [[v, i] for v, i in zip(vecs, ids)]
+            elif c['which'] == 'iter_data':
+                want = [[v] for v in vecs]
+            else:
+                d = 0 if c['diag'] else 1
+                want = [[ids[i], ids[j], vecs[i], vecs[j]] for i in range(len(ids))
+                        for j in (list(range(i + d, len(ids))) if c['tri'] else list(range(i)) + list(range(i + d, len(ids))))]
+            if canon(items) != canon(want):
+                fails.append('%s(%s) consumed between reads gave %s, the matrix gives %s' % (c['which'], c['axis'], items, want))
     elif k == 'nzcounts':
         f = (lambda v: float((v != 0).sum())) if c['binary'] else (lambda v: float(v.sum()))
         want = {'observation': [f(M[i, :]) for i in range(nr)], 'sample': [f(M[:, j]) for j in range(nc)], 'whole': [f(M)]}[c['axis']]
@@ -783,11 +920,15 @@ def _md_variant(rng, n, kind):
 
 
 def gen_spec(rng, mdkind=None, values=None):
+    # boundary sizes on purpose (18 %): a single observation and / or a single sample -- numpy squeezes such axes away
+    b = rng.random()
+    lim = dict(max_r=1, max_c=5) if b < 0.07 else dict(max_r=4, max_c=1) if b < 0.14 else \
+        dict(max_r=1, max_c=1) if b < 0.18 else dict(max_r=4, max_c=5)
     for _ in range(20):
-        spec = T.rand_spec(rng, max_r=4, max_c=5, values=values or rng.choice(['counts', 'counts', 'signed', 'dyadic', 'dyadic', 'small']),
+        spec = T.rand_spec(rng, values=values or rng.choice(['counts', 'counts', 'signed', 'dyadic', 'dyadic', 'small']),
                            md=mdkind if mdkind in (None, 'none', 'text', 'num', 'tax', 'group', 'obs', 'samp') else 'none',
-                           ttype=rng.choice([None, 'OTU table']))
-        if len(spec['oids']) != len(spec['sids']) or rng.random() < 0.15:
+                           ttype=rng.choice([None, 'OTU table']), **lim)
+        if b < 0.18 or len(spec['oids']) != len(spec['sids']) or rng.random() < 0.15:
             break
     if mdkind in ('order', 'sets'):
         spec['omd'] = _md_variant(rng, len(spec['oids']), mdkind)
@@ -804,7 +945,7 @@ def empty_spec(rng):
             'type': None, 'layout': [rng.choice(['dense', 'csr'])]}
 
 
-KINDS = ['sum', 'sum', 'min', 'max', 'min', 'max', 'nonzero', 'nonzero', 'nzcounts', 'nzcounts', 'reduce', 'density', 'nnz',
+KINDS = ['gen', 'gen', 'gen', 'sum', 'sum', 'min', 'max', 'min', 'max', 'nonzero', 'nonzero', 'nzcounts', 'nzcounts', 'reduce', 'density', 'nnz',
          'stats', 'stats', 'report', 'report', 'report', 'ids', 'head', 'df', 'sdf', 'mddf', 'mddf', 'export']
 
 
@@ -832,6 +973,24 @@ def gen_case(rng, kind=None):
             c['pre'] = [['dec', rng.choice(['sample', 'observation'])]]
         elif x < 0.42:
             c['pre'] = [['transpose']]
+    if base == 'gen':
+        c['which'] = rng.choice(['nonzero', 'nonzero', 'nonzero', 'iter', 'iter_data', 'pairwise'])
+        if c['which'] == 'pairwise' and not (r and n):
+            c['which'] = 'nonzero'       # data() refuses an empty table
+        c['axis'] = rng.choice(['sample', 'observation'])
+        c['dense'] = rng.random() < 0.6
+        c['tri'] = rng.random() < 0.6
+        c['diag'] = rng.random() < 0.4
+        colwise = ['col', 'minS', 'stats', 'iterS', 'nzS']
+        rowwise = ['row', 'maxO', 'iterO', 'nzO', 'nonzero']
+        c['flips'] = [rng.choice(colwise), rng.choice(rowwise + ['nnz'])] if rng.random() < 0.7 else \
+            [rng.choice(colwise + rowwise + ['nnz']) for _ in range(rng.randint(1, 3))]
+        if rng.random() < 0.5:
+            c['flips'].reverse()
+        if 'zeros' in (c.get('inject') or ''):
+            # nnz eliminates zeros in place, in the very arrays a running nonzero() reads: only a representation with
+            # stored zeros (injected, no history leaves one) can show that
+            c['flips'] = [f if f != 'nnz' else 'row' for f in c['flips']]
     if base in ('sum', 'min', 'max'):
         c['axis'] = rng.choice(['whole', 'sample', 'observation'])
     elif base == 'nzcounts':
@@ -895,7 +1054,7 @@ def classify(c):
             'dims:%dx%d' % (len(s['oids']), len(s['sids'])), 'inject:' + str(c.get('inject')),
             'pre:' + (c['pre'][0][0] if c.get('pre') else 'none'),
             'md:' + ('both' if s.get('omd') and s.get('smd') else 'obs' if s.get('omd') else 'samp' if s.get('smd') else 'none')]
-    for f in ('axis', 'binary', 'f', 'q', 'o', 'out', 'both', 'defaults', 'nflag', 'mflag', 'sflag'):
+    for f in ('which', 'axis', 'binary', 'f', 'q', 'o', 'out', 'both', 'defaults', 'nflag', 'mflag', 'sflag'):
         if f in c:
             tags.append('%s:%s:%s' % (c['kind'], f, c[f]))
     try:
